@@ -8,18 +8,22 @@
 EXTENDS Integers, Sequences, FiniteSets, TLC
 
 Syms == {"a", "sp", "tab", "nl", "sq", "dq", "bs", "dollar", "hash", "tilde", "star", "eq", "c01", "del", "zdot", "fffd", "xff", "smalltilde", "excl", "semi",
-         "nbsp", "ideosp"}      \* U+00A0, U+3000: white space to Unicode, ordinary characters to bash and to the code
+         "nbsp", "ideosp",      \* U+00A0, U+3000: white space to Unicode, ordinary characters to bash and to the code
+         "pipe", "amp", "lt", "gt", "lp", "rp", "bq",          \* | & < > ( ) `  : shell syntax
+         "qm", "lb", "rb",                                       \* ? [ ]        : file-name patterns (expanded when a matching file exists)
+         "lbrace", "rbrace", "plus", "pct"}                      \* { } + %      : quoted by the code, harmless to bash here
 
 \* --- the code: src/arg.rs quote() ---
 \* lossy view of the word: an invalid byte shows up as U+FFFD
 NeedsDollar(s) == s \in {"tab", "nl", "c01", "del", "fffd", "xff", "sq"}           \* c < 0x20, 0x7f, U+FFFD, '
-CodeSpecial == {"sp", "tab", "dq", "bs", "dollar", "hash", "star", "eq", "sq", "semi", "smalltilde", "tilde"}     \* SPECIAL_CHARS
+CodeSpecial == {"sp", "tab", "dq", "bs", "dollar", "hash", "star", "eq", "sq", "semi", "smalltilde", "tilde",
+                "pipe", "amp", "lt", "gt", "lp", "rp", "bq", "qm", "lb", "rb", "lbrace", "rbrace", "plus", "pct"}     \* SPECIAL_CHARS
 Style(w) == IF \E i \in 1..Len(w) : NeedsDollar(w[i]) THEN "dollar"
             ELSE IF \E i \in 1..Len(w) : w[i] \in CodeSpecial THEN "single" ELSE "bare"
 
 \* --- bash: which symbols are not taken literally ---
 \* anywhere in an unquoted word
-BashUnquotedSpecial == {"sp", "tab", "nl", "sq", "dq", "bs", "dollar", "star", "semi"}
+BashUnquotedSpecial == {"sp", "tab", "nl", "sq", "dq", "bs", "dollar", "star", "semi", "pipe", "amp", "lt", "gt", "lp", "rp", "bq", "qm", "lb"}
 \* only at the start of an unquoted word: comment, tilde expansion
 BashLeadingSpecial == {"hash", "tilde"}
 LosslessBare(w) == /\ \A i \in 1..Len(w) : w[i] \notin BashUnquotedSpecial
